@@ -11,6 +11,9 @@ func init() {
 	register("C12", func(c *core.Ctx, tier string) {
 		abortedPostNotAnError(c, "C12.11")
 		bufferedCloseRechecksWritable(c, "C12.12")
+		upgradeAttemptConcludedOnce(c, "C12.13")
+		discardCompletesBufferedClose(c, "C12.14")
+		closeSerialisedWithFlush(c, "C12.15")
 		baseTransportEffects(c, "C12.9")
 		pollingEffects(c, "C12.8")
 		constructorChain(c, "C12.7")
